@@ -1,3 +1,167 @@
+import Cello.Lifecycle
 import Driver.Common
-/- driver for engine `life` — stub, replaced when the engine is built -/
-def main (_args : List String) : IO Unit := IO.println "O not-implemented"
+/- driver for engine `life` (C06): interprets the op files of harness/h_life.c on the model `Cello.Life` and prints the
+   same `O` lines: per op the ledger events it caused (in order; sorted in `uno` histories), the pending order of the
+   collection it performed, the registry as a set, `running`, `mitems`. -/
+open Cello.Life
+
+structure Hist where
+  st : St := St.init
+  ordered : Bool := true
+  kinds : List (Nat × Char) := []      -- allocated ids with their kind
+  held : List Nat := []
+  ended : Bool := false
+
+def Hist.kindOf (h : Hist) (a : Nat) : Option Char := (h.kinds.find? (·.1 == a)).map (·.2)
+def Hist.allocated (h : Hist) (a : Nat) : Bool := h.kinds.any (·.1 == a)
+
+/-- ids up to `;` (or the end); `none` if a token is not an id -/
+def parseIds : List String → Option (List Nat × List String)
+  | [] => some ([], [])
+  | t :: ts =>
+    if t = ";" then some ([], ts) else
+    match t.toNat? with
+    | some v => if v < 65536 then (parseIds ts).map (fun (a, r) => (v :: a, r)) else none
+    | none => none
+
+def evKey (e : Ev) : Nat × Nat := match e with | .fin a => (a, 0) | .free a => (a, 1)
+
+def insertEv (e : Ev) : List Ev → List Ev
+  | [] => [e]
+  | x :: xs => if (evKey e).1 < (evKey x).1 || ((evKey e).1 == (evKey x).1 && (evKey e).2 ≤ (evKey x).2) then e :: x :: xs else x :: insertEv e xs
+
+def showEv : Ev → String
+  | .fin a => s!"f{a}"
+  | .free a => s!"x{a}"
+
+def insertNat (a : Nat × Bool) : List (Nat × Bool) → List (Nat × Bool)
+  | [] => [a]
+  | x :: xs => if a.1 ≤ x.1 then a :: x :: xs else x :: insertNat a xs
+
+/-- print the observation of one op: `h` after the op whose events are `h.st.log` (the log is cleared before each op) -/
+def observe (tag : String) (h : Hist) (pend : List Nat) (withReg : Bool) (setOnly : Bool := false) : String :=
+  -- the library's own Box has no destructor hook in the harness: only its release is observed
+  let evs := h.st.log.filter (fun e => match e with
+    | .fin a => h.kindOf a != some 'B'
+    | .free _ => true)
+  let evs := if h.ordered && !setOnly then evs else evs.foldr insertEv []
+  let evS := ",".intercalate (evs.map showEv)
+  let pendS := if !h.ordered || setOnly || pend.isEmpty then "-" else ",".intercalate (pend.map toString)
+  let base := s!"O {tag} ev={evS} pend={pendS}"
+  if !withReg then base else
+  let regs := (h.st.reg.map (fun e => (e.addr, e.root))).foldr insertNat []
+  let regS := ",".intercalate (regs.map (fun (a, r) => toString a ++ (if r then "r" else "")))
+  s!"{base} reg={regS} run={if h.st.running then 1 else 0} mit={h.st.mitems}"
+
+def doOp (h : Hist) (tag : String) (op : Op) (withReg : Bool := true) : Hist × String :=
+  let s0 := { h.st with log := [] }
+  let pend := stepPending s0 op
+  let s1 := step Cfg.current s0 op
+  let h' := { h with st := s1 }
+  -- a registration that runs a threshold collection: the harness compares the set of finalised objects only (the real
+  -- conservative stack scan may keep some garbage, which the harness then reclaims with a second collection)
+  let setOnly := match op with
+    | .new _ k _ _ _ => k != .raw && s0.running && s0.reg.length + 1 > s0.mitems
+    | _ => false
+  (h', observe tag h' pend withReg setOnly)
+
+def kindOfChar (c : Char) : Kind := if c = 'r' then .root else if c = 'w' then .raw else .std
+
+/-- one op line inside a history; returns the new history state and the line to print -/
+def opLine (h : Hist) (toks : List String) : Hist × String :=
+  let bad := (h, "O bad-op")
+  match toks with
+  | "n" :: idS :: kindS :: howS :: slotS :: ownedS :: rest =>
+    match idS.toNat?, slotS.toNat?, kindS.toList, howS.toList with
+    | some id, some slot, [kc], [hc] =>
+      if id ≥ 65536 || !("pbBa".toList.contains kc) || !("srw".toList.contains hc) then bad else
+      let owned? : Option (Option Nat) := if ownedS = "-" then some none else (ownedS.toNat?).map some
+      match owned? with
+      | none => bad
+      | some owned =>
+        if (match owned with | some o => decide (o ≥ 65536) | none => false) then bad else
+        let orderOk : Option (List Nat) := match rest with
+          | [] => some []
+          | t :: r => if t = ";" then (parseIds r).map (·.1) else none
+        match orderOk with
+        | none => bad
+        | some order =>
+          if h.allocated id then bad else
+          if kc != 'B' && slot ≥ 16384 then bad else
+          if (match owned with | some o => !h.allocated o || kc = 'p' || kc = 'a' | none => false) then bad else
+          let marks := markSet h.st h.held ++ [id]
+          let op := Op.new id (kindOfChar hc) (match owned with | some o => [o] | none => []) marks order
+          let (h', line) := doOp h "n" op
+          ({ h' with kinds := (id, kc) :: h'.kinds }, line)
+    | _, _, _, _ => bad
+  | ["d", idS, howS] =>
+    match idS.toNat?, howS.toList with
+    | some id, [hc] =>
+      if !("srw".toList.contains hc) || !h.allocated id then bad else
+      doOp h "d" (Op.del id (kindOfChar hc))
+    | _, _ => bad
+  | "c" :: rest =>
+    match parseIds rest with
+    | some (marks, r) => match parseIds r with
+      | some (order, _) => doOp h "c" (Op.collect marks order)
+      | none => bad
+    | none => bad
+  | "g" :: rest =>
+    match parseIds rest with
+    | some ([], r) => match parseIds r with
+      | some (order, _) => doOp h "g" (Op.collect (markSet h.st h.held) order)
+      | none => bad
+    | _ => bad
+  | "k" :: rest =>
+    match parseIds rest with
+    | some (ids, _) =>
+      if ids.all h.allocated then
+        let h' := { h with held := ids, st := { h.st with log := [] } }
+        (h', observe "k" h' [] true)
+      else bad
+    | none => bad
+  | ["s"] => doOp h "s" Op.stop
+  | ["t"] => doOp h "t" Op.start
+  | "e" :: rest =>
+    match parseIds rest with
+    | some ([], r) => match parseIds r with
+      | some (order, _) =>
+        let (h', line) := doOp h "e" (Op.teardown order) false
+        ({ h' with ended := true }, line)
+      | none => bad
+    | _ => bad
+  | _ => bad
+
+def main (args : List String) : IO Unit := do
+  let lines ← Driver.inputLines args
+  let mut cur : Option Hist := none
+  let mut nOps := 0
+  let mut nFin := 0
+  for l in lines do
+    if Driver.isSkippable l then continue
+    let toks := Driver.words l
+    if l.startsWith "H " then
+      -- a history that ends without `e`
+      if let some h := cur then
+        if !h.ended then IO.println "O e missing"
+      match toks with
+      | "H" :: mode :: ord :: _ =>
+        if (mode = "main" || mode = "thread") && (ord = "ord" || ord = "uno") then
+          IO.println s!"O H {mode} {ord}"
+          cur := some { ordered := ord = "ord" }
+        else
+          IO.println "O bad-op"; cur := none
+      | _ => IO.println "O bad-op"; cur := none
+    else
+      match cur with
+      | none => IO.println "O bad-op"
+      | some h =>
+        if h.ended then continue
+        let (h', line) := opLine h toks
+        nOps := nOps + 1
+        nFin := nFin + (h'.st.log.filter (fun e => match e with | .fin _ => true | _ => false)).length
+        IO.println line
+        cur := some h'
+  if let some h := cur then
+    if !h.ended then IO.println "O e missing"
+  IO.println s!"S ops={nOps} finalised={nFin}"
